@@ -151,6 +151,9 @@ func (f *fn) expr(e ast.Expr) val {
 		switch o := obj.(type) {
 		case *types.Var:
 			if lv, ok := f.vars[o]; ok {
+				if lv.abs != nil {
+					return val{s: f.useVar(lv), t: lv.abs.named}
+				}
 				return val{s: f.useVar(lv), t: o.Type(), nat: lv.nat}
 			}
 			if o.Pkg() != nil && o.Parent() == o.Pkg().Scope() {
@@ -197,6 +200,11 @@ func (f *fn) expr(e ast.Expr) val {
 		case token.XOR:
 			if kindOf(a.t) == kUnsigned {
 				return val{s: "(~~~" + a.s + ")", g: a.g, t: a.t}
+			}
+		case token.AND:
+			// &T{…}: a pointer to a fresh struct is the struct (no aliasing is represented)
+			if _, ok := e.X.(*ast.CompositeLit); ok && kindOf(a.t) == kStruct {
+				return a
 			}
 		}
 		f.unsupported(e, "unary %s on %s", e.Op, a.t)
@@ -657,6 +665,27 @@ func (f *fn) callExpr(c *ast.CallExpr) val {
 			f.unsupported(c, "builtin %s in expression position", b.Name())
 		}
 	}
+	if lv, m := f.absRecv(c); lv != nil {
+		if hasSliceParam(m) {
+			f.unsupported(c, "observation %s with a byte-slice argument inside an expression (only as a statement or `…, err := x.%s(buf)`)", m.Name(), m.Name())
+		}
+		of := f.x.observation(lv.abs, m)
+		sig := m.Type().(*types.Signature)
+		if sig.Results().Len() != 1 {
+			f.unsupported(c, "observation with %d results inside an expression", sig.Results().Len())
+		}
+		text := lv.name + "." + of.lean
+		var g []string
+		for i, a := range c.Args {
+			v := f.expr(a)
+			g = append(g, v.g...)
+			text += " " + f.as(f.convVal(v, sig.Params().At(i).Type(), a), false, a)
+		}
+		if len(c.Args) > 0 {
+			text = "(" + text + ")"
+		}
+		return val{s: text, g: g, t: sig.Results().At(0).Type()}
+	}
 	fo := f.calleeOf(c)
 	if isErrorMaker(fo) {
 		for _, a := range c.Args[1:] {
@@ -704,6 +733,9 @@ func (f *fn) checkPureArg(e ast.Expr) {
 				if _, ok := f.pkg.info.Uses[id].(*types.Builtin); ok && id.Name == "len" {
 					return true
 				}
+			}
+			if lv, m := f.absRecv(n); lv != nil && !hasSliceParam(m) {
+				return true
 			}
 			fo := f.calleeOf(n)
 			if fo == nil {
